@@ -8,7 +8,7 @@ import (
 
 func c37BatchSpecs(r *ev.R) []c37Spec {
 	wide := ev.Pick(r, 3, 4) // delay bound of the parameterised scenarios
-	deep := ev.Pick(r, 3, 5) // delay bound of the plain 2x2 + closer scenarios
+	deep := ev.Pick(r, 3, 4) // plain 2x2 + closer scenarios (bound 5 is affordable only for the cheaper worker queue and mailbox)
 	d := "batch"
 	return []c37Spec{
 		{Name: "batch-w1-q1-max1-drain-abc", Driver: d, Workers: 1, QSize: 1, BatchMax: 1, Order: "abc", Bound: deep},
